@@ -39,7 +39,13 @@ func Float64SliceValue(v []float64) interface{} {
 func StringSliceValue(v []string) interface{} {
 	var zero string
 	cp := reflect.New(reflect.ArrayOf(len(v), reflect.TypeOf(zero))).Elem()
-	reflect.Copy(cp, reflect.ValueOf(v))
+	// Do not use reflect.Copy here: the compiler does not see the string data
+	// flow into the array through it and may keep a short-lived element (for
+	// instance the result of a concatenation) in a stack buffer of the caller,
+	// which the array would still point to after that buffer has been reused.
+	for i, s := range v {
+		cp.Index(i).SetString(s)
+	}
 	return cp.Interface()
 }
 
